@@ -1,5 +1,6 @@
 import FractopoModel.Lemmas.CropHelpers
 import FractopoModel.Model.Crop
+import FractopoModel.Generated.CropPipeline
 /-!
 # C07 — cropping keeps exactly the trace parts inside the areas, with attributes
 
@@ -177,6 +178,197 @@ theorem C07_generated_dissolve_rows (is_mls is_ls : G → Bool) (parts : G → L
       · cases h
         exact rows_perm (fun r => is_mls r.2) (fun r => (parts r.2).map fun g => (r.1, g)) traces
       · cases h
+
+/-! ### the whole `crop_to_target_areas`, regenerated -/
+
+/-- the single-part line pieces of a LineString / MultiLineString; nothing for any other kind -/
+def linePieces (is_mls is_ls : G → Bool) (parts : G → List G) (g : G) : List G :=
+  if is_mls g then parts g else if is_ls g then [g] else []
+
+/-- the single-part line pieces of what `gpd.clip` leaves of a geometry: of the result itself, or -- for a GeometryCollection
+(line + touch point) -- of its parts -/
+def clipPieces (is_mls is_ls is_coll : G → Bool) (parts cparts : G → List G) (clipg : G → Option G) (g : G) : List G :=
+  match clipg g with
+  | none => []
+  | some c => if is_coll c then (cparts c).flatMap (linePieces is_mls is_ls parts) else linePieces is_mls is_ls parts c
+
+/-- what the five frame operations after the clip do to ONE clipped row -/
+theorem row_pipeline (is_mls is_ls is_coll long : G → Bool) (parts cparts : G → List G) (a : D) (c : G) :
+    ((((if is_coll c then (cparts c).map (fun g => (a, g)) else [(a, c)]).filter fun r => is_ls r.2 || is_mls r.2).flatMap
+        fun r => if is_mls r.2 then (parts r.2).map (fun g => (r.1, g)) else [r]).filter fun r => long r.2)
+      = ((if is_coll c then (cparts c).flatMap (linePieces is_mls is_ls parts) else linePieces is_mls is_ls parts c).filter long).map fun g => (a, g) := by
+  have one : ∀ g : G, (([(a, g)].filter fun r : D × G => is_ls r.2 || is_mls r.2).flatMap
+      fun r => if is_mls r.2 then (parts r.2).map (fun g => (r.1, g)) else [r]) = (linePieces is_mls is_ls parts g).map fun g => (a, g) := by
+    intro g
+    unfold linePieces
+    cases hm : is_mls g <;> cases hl : is_ls g <;> simp [List.filter_cons, hm, hl]
+  have A : ∀ gs : List G, (((gs.map fun g => (a, g)).filter fun r : D × G => is_ls r.2 || is_mls r.2).flatMap
+      fun r => if is_mls r.2 then (parts r.2).map (fun g => (r.1, g)) else [r]) = (gs.flatMap (linePieces is_mls is_ls parts)).map fun g => (a, g) := by
+    intro gs
+    induction gs with
+    | nil => rfl
+    | cons g gs ih =>
+      have e : (g :: gs).map (fun g => (a, g)) = [(a, g)] ++ gs.map (fun g => (a, g)) := rfl
+      rw [e, List.filter_append, List.flatMap_append, one g, ih, List.flatMap_cons, List.map_append]
+  by_cases hc : is_coll c = true
+  · simp only [hc, if_true]
+    rw [A, List.filter_map]
+    rfl
+  · have hc' : is_coll c = false := by simpa using hc
+    simp only [hc', Bool.false_eq_true, if_false]
+    have := A [c]
+    simp only [List.map_cons, List.map_nil, List.flatMap_cons, List.flatMap_nil, List.append_nil] at this
+    rw [this, List.filter_map]
+    rfl
+
+theorem frame_pipeline (is_mls is_ls is_coll long : G → Bool) (parts cparts : G → List G) (L : List (D × G)) :
+    ((((L.flatMap fun r => if is_coll r.2 then (cparts r.2).map (fun g => (r.1, g)) else [r]).filter fun r => is_ls r.2 || is_mls r.2).flatMap
+        fun r => if is_mls r.2 then (parts r.2).map (fun g => (r.1, g)) else [r]).filter fun r => long r.2)
+      = L.flatMap fun r => ((if is_coll r.2 then (cparts r.2).flatMap (linePieces is_mls is_ls parts) else linePieces is_mls is_ls parts r.2).filter long).map fun g => (r.1, g) := by
+  induction L with
+  | nil => rfl
+  | cons r rs ih =>
+    obtain ⟨a, c⟩ := r
+    rw [List.flatMap_cons, List.filter_append, List.flatMap_append, List.filter_append, ih, List.flatMap_cons]
+    congr 1
+    exact row_pipeline is_mls is_ls is_coll long parts cparts a c
+
+theorem crop_closed (is_mls is_ls is_coll long : G → Bool) (parts cparts : G → List G) (clipg : G → Option G) (window : List Nat)
+    (traces : List (D × G)) (filt allow : Bool) :
+    Gen.crop_to_target_areas is_mls is_ls is_coll parts cparts clipg long window traces filt allow =
+      if ((!(List.all traces (fun r => is_ls r.2))) && (!allow)) then .error "TypeError" else
+      let cand := if filt then traces else window.filterMap fun i => traces[i]?
+      let c0 := cand.filterMap fun r => (clipg r.2).map fun g => (r.1, g)
+      let c1 := if c0.any (fun r => is_coll r.2) then (c0.filter fun r => !is_coll r.2) ++ (c0.filter fun r => is_coll r.2).flatMap (fun r => (cparts r.2).map fun g => (r.1, g)) else c0
+      match Gen.dissolve_multi_part_traces is_mls is_ls parts (c1.filter fun r => is_ls r.2 || is_mls r.2) with
+      | .error e => .error e
+      | .ok x => .ok (x.filter fun r => long r.2) := by
+  unfold Gen.crop_to_target_areas
+  cases filt <;> simp only [Bool.not_true, Bool.not_false, Bool.false_eq_true, if_true, if_false, CropH.compress_pred, CropH.compress_not, List.any_map, Function.comp_def, id]
+  all_goals (split <;> first | rfl | (generalize Gen.dissolve_multi_part_traces _ _ _ _ = x; cases x <;> rfl))
+
+theorem explode_perm (is_coll : G → Bool) (cparts : G → List G) (c0 : List (D × G)) :
+    (if c0.any (fun r => is_coll r.2) then (c0.filter fun r => !is_coll r.2) ++ (c0.filter fun r => is_coll r.2).flatMap (fun r => (cparts r.2).map fun g => (r.1, g)) else c0).Perm
+      (c0.flatMap fun r => if is_coll r.2 then (cparts r.2).map (fun g => (r.1, g)) else [r]) := by
+  split
+  · exact rows_perm (fun r => is_coll r.2) (fun r => (cparts r.2).map fun g => (r.1, g)) c0
+  · rename_i h
+    have hnone : ∀ r ∈ c0, is_coll r.2 = false := by
+      intro r hr
+      cases hh : is_coll r.2
+      · rfl
+      · exact absurd (List.any_eq_true.mpr ⟨r, hr, hh⟩) h
+    apply List.Perm.of_eq
+    clear h
+    induction c0 with
+    | nil => rfl
+    | cons a as ih =>
+      simp only [List.flatMap_cons, hnone a (by simp), Bool.false_eq_true, if_false, List.cons_append, List.nil_append]
+      rw [← ih (fun r hr => hnone r (by simp [hr]))]
+
+theorem filter_window_filterMap (clipg : G → Option G) (traces : List (D × G)) (inWin : D × G → Bool)
+    (hc : ∀ r ∈ traces, (clipg r.2).isSome = true → inWin r = true) :
+    ((traces.filter inWin).filterMap fun r => (clipg r.2).map fun g => (r.1, g)) = traces.filterMap fun r => (clipg r.2).map fun g => (r.1, g) := by
+  induction traces with
+  | nil => rfl
+  | cons a as ih =>
+    have ih' := ih (fun r hr => hc r (by simp [hr]))
+    rw [List.filter_cons]
+    cases hw : inWin a
+    · simp only [Bool.false_eq_true, if_false]
+      have : clipg a.2 = none := by
+        cases hq : clipg a.2
+        · rfl
+        · have := hc a (by simp) (by simp [hq]); rw [hw] at this; cases this
+      rw [ih', List.filterMap_cons, this]; rfl
+    · simp only [if_true, List.filterMap_cons]
+      rw [ih']
+
+theorem clip_window (clipg : G → Option G) (window : List Nat) (traces : List (D × G)) (inWin : D × G → Bool)
+    (hp : (window.filterMap fun i => traces[i]?).Perm (traces.filter inWin)) (hc : ∀ r ∈ traces, (clipg r.2).isSome = true → inWin r = true) :
+    ((window.filterMap fun i => traces[i]?).filterMap fun r => (clipg r.2).map fun g => (r.1, g)).Perm
+      (traces.filterMap fun r => (clipg r.2).map fun g => (r.1, g)) :=
+  (hp.filterMap _).trans (List.Perm.of_eq (filter_window_filterMap clipg traces inWin hc))
+
+theorem flatMap_clip (is_mls is_ls is_coll long : G → Bool) (parts cparts : G → List G) (clipg : G → Option G) (traces : List (D × G)) :
+    ((traces.filterMap fun r => (clipg r.2).map fun g => (r.1, g)).flatMap fun r =>
+        ((if is_coll r.2 then (cparts r.2).flatMap (linePieces is_mls is_ls parts) else linePieces is_mls is_ls parts r.2).filter long).map fun g => (r.1, g))
+      = traces.flatMap fun r => ((clipPieces is_mls is_ls is_coll parts cparts clipg r.2).filter long).map fun g => (r.1, g) := by
+  induction traces with
+  | nil => rfl
+  | cons a as ih =>
+    rw [List.filterMap_cons, List.flatMap_cons, ← ih]
+    unfold clipPieces
+    cases clipg a.2 <;> simp
+
+/-- **The whole `crop_to_target_areas`, regenerated, keeps exactly the line pieces inside the areas, each with the data of its row.** Whenever the
+regenerated function (type check, spatial pre-filter unless `is_filtered`, `gpd.clip` row by row, GeometryCollection explode, (Multi)LineString
+filter, regenerated dissolve, minimum-length filter) returns, its rows are -- up to order -- for every input row and every single-part line piece of
+what the clip leaves of it (pieces of a collection's parts included) that is longer than the minimum: one row with that row's data. Hypothesis when
+the function pre-filters itself: the window reports a sub-selection of the rows containing every row the clip does not drop (`gpd.clip` only keeps
+rows meeting the areas, and those lie in the areas' bounding box). -/
+theorem C07_generated_crop (is_mls is_ls is_coll long : G → Bool) (parts cparts : G → List G) (clipg : G → Option G) (window : List Nat)
+    (traces out : List (D × G)) (filt allow : Bool)
+    (hwin : filt = false → ∃ inWin : D × G → Bool, (window.filterMap fun i => traces[i]?).Perm (traces.filter inWin) ∧
+      ∀ r ∈ traces, (clipg r.2).isSome = true → inWin r = true)
+    (h : Gen.crop_to_target_areas is_mls is_ls is_coll parts cparts clipg long window traces filt allow = .ok out) :
+    out.Perm (traces.flatMap fun r => ((clipPieces is_mls is_ls is_coll parts cparts clipg r.2).filter long).map fun g => (r.1, g)) := by
+  rw [crop_closed] at h
+  split at h
+  · cases h
+  · simp only at h
+    have hc0 : (if filt then traces else window.filterMap fun i => traces[i]?).filterMap (fun r => (clipg r.2).map fun g => (r.1, g))
+        |>.Perm (traces.filterMap fun r => (clipg r.2).map fun g => (r.1, g)) := by
+      cases filt
+      · obtain ⟨inWin, hp, hc⟩ := hwin rfl
+        exact clip_window clipg window traces inWin hp hc
+      · exact List.Perm.refl _
+    generalize (if filt then traces else window.filterMap fun i => traces[i]?).filterMap (fun r => (clipg r.2).map fun g => (r.1, g)) = c0 at h hc0
+    have hc1 := explode_perm is_coll cparts c0
+    generalize (if c0.any (fun r => is_coll r.2) then (c0.filter fun r => !is_coll r.2) ++ (c0.filter fun r => is_coll r.2).flatMap (fun r => (cparts r.2).map fun g => (r.1, g)) else c0) = c1 at h hc1
+    cases hd : Gen.dissolve_multi_part_traces is_mls is_ls parts (c1.filter fun r => is_ls r.2 || is_mls r.2) with
+    | error e => rw [hd] at h; cases h
+    | ok x =>
+      rw [hd] at h
+      simp only [Except.ok.injEq] at h
+      subst h
+      have hx := C07_generated_dissolve_rows is_mls is_ls parts _ x hd
+      have step := ((((hc1.trans (hc0.flatMap_right _)).filter (fun r => is_ls r.2 || is_mls r.2)).flatMap_right
+        (fun r => if is_mls r.2 then (parts r.2).map (fun g => (r.1, g)) else [r])).filter (fun r => long r.2))
+      refine ((hx.filter (fun r => long r.2)).trans step).trans (List.Perm.of_eq ?_)
+      rw [frame_pipeline, flatMap_clip]
+
+/-- the same, in the vocabulary of the hand-written model: the regenerated function returns `Crop.expected` for the clip function "line pieces of the
+clip result" -- so `C07_rows_from_input`, `C07_length`, `C07_inside_on_source` … hold of the regenerated code -/
+theorem C07_generated_crop_expected (is_mls is_ls is_coll long : G → Bool) (parts cparts : G → List G) (clipg : G → Option G) (window : List Nat)
+    (traces out : List (D × G)) (filt allow : Bool)
+    (hwin : filt = false → ∃ inWin : D × G → Bool, (window.filterMap fun i => traces[i]?).Perm (traces.filter inWin) ∧
+      ∀ r ∈ traces, (clipg r.2).isSome = true → inWin r = true)
+    (h : Gen.crop_to_target_areas is_mls is_ls is_coll parts cparts clipg long window traces filt allow = .ok out) :
+    (out.map fun r => (⟨r.1, r.2⟩ : Row D G)).Perm
+      (expected (clipPieces is_mls is_ls is_coll parts cparts clipg) long (traces.map fun r => ⟨r.1, r.2⟩)) := by
+  refine ((C07_generated_crop is_mls is_ls is_coll long parts cparts clipg window traces out filt allow hwin h).map _).trans (List.Perm.of_eq ?_)
+  unfold expected
+  rw [List.map_flatMap, List.flatMap_map]
+  congr 1; funext r
+  simp [List.map_map, Function.comp_def]
+
+/-- a frame with a row that is not a LineString is refused unless multi-part input was allowed -/
+theorem C07_generated_crop_type_error (is_mls is_ls is_coll long : G → Bool) (parts cparts : G → List G) (clipg : G → Option G) (window : List Nat)
+    (traces : List (D × G)) (filt : Bool) (r : D × G) (hr : r ∈ traces) (hl : is_ls r.2 = false) :
+    Gen.crop_to_target_areas is_mls is_ls is_coll parts cparts clipg long window traces filt false = .error "TypeError" := by
+  rw [crop_closed]
+  have : (traces.all fun r => is_ls r.2) = false := by
+    rw [Bool.eq_false_iff]; intro hall
+    have := List.all_eq_true.mp hall r hr
+    rw [hl] at this; cases this
+  simp [this]
+
+/-- non-vacuity: geometries coded as numbers (0 dropped by the clip, 1..9 lines, 10.. collections of a line and a point): a row whose clip is a
+collection keeps its line part, the row outside is dropped, data travel with the pieces -/
+example : Gen.crop_to_target_areas (D := String) (fun (_ : Nat) => false) (fun g => decide (0 < g ∧ g < 10)) (fun g => decide (10 ≤ g)) (fun _ => [])
+    (fun g => [g - 10, 0]) (fun g => if g = 5 then none else some (if g = 2 then 13 else g)) (fun g => decide (g ≠ 0)) [0, 1, 2]
+    [("a", 1), ("b", 2), ("c", 5)] false false = .ok [("a", 1), ("b", 3)] := by decide
 
 end Dissolve
 
